@@ -10,6 +10,7 @@ import (
 	"strconv"
 	"strings"
 	"sync"
+	"sync/atomic"
 	"time"
 
 	"github.com/mark3labs/flyt"
@@ -863,9 +864,16 @@ func (e *runtimeEnv) connect(f *flyt.Flow, src int, action string, dst *int) {
 	f.Connect(e.nodes[src], flyt.Action(action), to)
 }
 
-const runWatchdog = 20 * time.Second
+const runWatchdog = 10 * time.Second
+
+// flowHangs counts runs of this process that hit the watchdog; after a few, the remaining runs are reported
+// as hangs without being started (a change that makes flyt hang must cost seconds, not hours)
+var flowHangs int32
 
 func (e *runtimeEnv) runOnce(root int) RunObs {
+	if atomic.LoadInt32(&flowHangs) >= 3 {
+		return RunObs{Trace: []string{}, Out: "H", Store: []int{}}
+	}
 	e.mu.Lock()
 	e.trace = nil
 	e.stores = nil
@@ -905,6 +913,7 @@ func (e *runtimeEnv) runOnce(root int) RunObs {
 		}
 	case <-time.After(runWatchdog):
 		out = "H" // hang
+		atomic.AddInt32(&flowHangs, 1)
 	}
 	if e.ctx == nil {
 		e.realStop()
